@@ -13,7 +13,10 @@
 //            CShared  refers to shared memory that some function may write
 //   assign    direct assignments to the variable outside init()
 //   elem      writes through the variable (x[i] = .., x.f = .., *x = .., x.f++)
-//   addr      &x, &x[i], &x.f taken
+//   addr      &x, &x[i], &x.f taken; x[:] of an array-typed variable (a slice aliasing the variable),
+//             unless it goes straight into a struct field that the library only ever reads
+//             (no element write through the field anywhere, every read of the field is an index
+//             read, len/cap, range, or a local copy that is itself only read that way)
 //   escape    for CShared only: uses that hand the reference on (argument, return, copy)
 package main
 
@@ -50,6 +53,8 @@ var libPkgs = []string{
 	"github.com/elastic/go-structform/visitors",
 }
 
+var readOnlyField func(f *types.Var) bool
+
 func main() {
 	root := os.Args[1]
 	cfg := &packages.Config{
@@ -71,6 +76,7 @@ func main() {
 
 	// ---- pass 1: which struct fields / pointees are ever written by library code ----
 	fieldWritten := map[*types.Var]bool{}   // field assigned, inc/dec'ed, address taken
+	fieldElemWritten := map[*types.Var]bool{} // an element of the slice / map / array held in the field written, or its address taken
 	typeStarWritten := map[string]bool{}    // *p = ... for p of type *T  (key: T's string)
 	ptrMethodMutates := map[string]bool{}   // named types having a pointer-receiver method that writes a field (approximation: any pointer-receiver method on a type with written fields)
 	var markLHS func(info *types.Info, e ast.Expr)
@@ -98,6 +104,7 @@ func main() {
 				if sel := info.Selections[se]; sel != nil && sel.Kind() == types.FieldVal {
 					if f, ok := sel.Obj().(*types.Var); ok {
 						fieldWritten[f] = true
+						fieldElemWritten[f] = true
 					}
 				}
 			}
@@ -139,6 +146,128 @@ func main() {
 		}
 	}
 	_ = ptrMethodMutates
+
+	// ---- pass 1b: fields whose (slice) value is only ever read element-wise ----
+	// fieldLeaks[f]: some use of x.f other than an index read, len/cap, range, a comparison with
+	// nil, being assigned to, or a copy into a local variable that is only read in those ways.
+	fieldLeaks := map[*types.Var]bool{}
+	for _, p := range pkgs {
+		info := p.TypesInfo
+		fieldOf := func(e ast.Expr) *types.Var {
+			if se, ok := e.(*ast.SelectorExpr); ok {
+				if sel := info.Selections[se]; sel != nil && sel.Kind() == types.FieldVal {
+					if f, ok := sel.Obj().(*types.Var); ok {
+						return f
+					}
+				}
+			}
+			return nil
+		}
+		for _, file := range p.Syntax {
+			// locals that hold a copy of a field: local object -> field
+			localOf := map[types.Object]*types.Var{}
+			ast.Inspect(file, func(n ast.Node) bool {
+				if as, ok := n.(*ast.AssignStmt); ok && len(as.Lhs) == len(as.Rhs) {
+					for i, r := range as.Rhs {
+						if f := fieldOf(r); f != nil {
+							if id, ok := as.Lhs[i].(*ast.Ident); ok {
+								if o := info.ObjectOf(id); o != nil {
+									localOf[o] = f
+								}
+							}
+						}
+					}
+				}
+				return true
+			})
+			var stack []ast.Node
+			readOnlyUse := func(e ast.Expr, parent ast.Node, grand ast.Node) bool {
+				switch q := parent.(type) {
+				case *ast.IndexExpr:
+					if q.X != e {
+						return true // used as an index
+					}
+					// x.f[i]: a read unless it is the target of an assignment / inc-dec / address-of
+					switch g := grand.(type) {
+					case *ast.AssignStmt:
+						for _, l := range g.Lhs {
+							if l == ast.Expr(q) {
+								return false
+							}
+						}
+					case *ast.IncDecStmt:
+						return false
+					case *ast.UnaryExpr:
+						if g.Op == token.AND {
+							return false
+						}
+					}
+					return true
+				case *ast.RangeStmt:
+					return q.X == e
+				case *ast.CallExpr:
+					if f, ok := q.Fun.(*ast.Ident); ok && (f.Name == "len" || f.Name == "cap") {
+						return true
+					}
+					return false
+				case *ast.BinaryExpr:
+					return q.Op == token.EQL || q.Op == token.NEQ
+				case *ast.AssignStmt:
+					for _, l := range q.Lhs {
+						if l == e {
+							return true // the field / local itself is assigned
+						}
+					}
+					// x.f on the right-hand side: fine only as "local := x.f" (tracked above)
+					for i, r := range q.Rhs {
+						if r == e && len(q.Lhs) == len(q.Rhs) {
+							if id, ok := q.Lhs[i].(*ast.Ident); ok {
+								if o := info.ObjectOf(id); o != nil {
+									if _, tracked := localOf[o]; tracked {
+										return true
+									}
+								}
+							}
+						}
+					}
+					return false
+				case *ast.KeyValueExpr:
+					return q.Key == e // field name in a composite literal
+				}
+				return false
+			}
+			ast.Inspect(file, func(n ast.Node) bool {
+				if n == nil {
+					stack = stack[:len(stack)-1]
+					return true
+				}
+				var parent, grand ast.Node
+				if len(stack) >= 1 {
+					parent = stack[len(stack)-1]
+				}
+				if len(stack) >= 2 {
+					grand = stack[len(stack)-2]
+				}
+				switch e := n.(type) {
+				case *ast.SelectorExpr:
+					if f := fieldOf(e); f != nil {
+						if _, isSlice := f.Type().Underlying().(*types.Slice); isSlice && !readOnlyUse(e, parent, grand) {
+							fieldLeaks[f] = true
+						}
+					}
+				case *ast.Ident:
+					if o := info.Uses[e]; o != nil {
+						if f, ok := localOf[o]; ok && !readOnlyUse(e, parent, grand) {
+							fieldLeaks[f] = true
+						}
+					}
+				}
+				stack = append(stack, n)
+				return true
+			})
+		}
+	}
+	readOnlyField = func(f *types.Var) bool { return !fieldElemWritten[f] && !fieldLeaks[f] }
 
 	// is the memory reachable from a value of type t never written by library code?
 	var frozen func(t types.Type, seen map[types.Type]bool) bool
@@ -340,6 +469,41 @@ func walk(fset *token.FileSet, info *types.Info, fd *ast.FuncDecl, byObj map[*ty
 			}
 		}
 	}
+	// slice expressions that go straight into a struct field the library only reads
+	sliceIntoReadOnlyField := map[*ast.SliceExpr]bool{}
+	fieldVar := func(e ast.Expr) *types.Var {
+		if se, ok := e.(*ast.SelectorExpr); ok {
+			if sel := info.Selections[se]; sel != nil && sel.Kind() == types.FieldVal {
+				if f, ok := sel.Obj().(*types.Var); ok {
+					return f
+				}
+			}
+		}
+		return nil
+	}
+	ast.Inspect(fd.Body, func(n ast.Node) bool {
+		switch s := n.(type) {
+		case *ast.AssignStmt:
+			if len(s.Lhs) == len(s.Rhs) {
+				for i, r := range s.Rhs {
+					if sl, ok := r.(*ast.SliceExpr); ok {
+						if f := fieldVar(s.Lhs[i]); f != nil && readOnlyField(f) {
+							sliceIntoReadOnlyField[sl] = true
+						}
+					}
+				}
+			}
+		case *ast.KeyValueExpr:
+			if sl, ok := s.Value.(*ast.SliceExpr); ok {
+				if id, ok := s.Key.(*ast.Ident); ok {
+					if f, ok := info.Uses[id].(*types.Var); ok && f.IsField() && readOnlyField(f) {
+						sliceIntoReadOnlyField[sl] = true
+					}
+				}
+			}
+		}
+		return true
+	})
 	handled := map[*ast.Ident]bool{}
 	lhs := func(e ast.Expr) {
 		id, direct := root(e)
@@ -381,6 +545,16 @@ func walk(fset *token.FileSet, info *types.Info, fd *ast.FuncDecl, byObj map[*ty
 						handled[id] = true
 						g.addr++
 						site(g, s, "address taken")
+					}
+				}
+			}
+		case *ast.SliceExpr:
+			// x[:] of an array-typed package-level variable: a slice that aliases the variable
+			if id, direct := root(s.X); id != nil && direct {
+				if g := globalOf(id); g != nil {
+					if _, isArr := g.obj.Type().Underlying().(*types.Array); isArr && !sliceIntoReadOnlyField[s] {
+						g.addr++
+						site(g, s, "slice of the array taken")
 					}
 				}
 			}
